@@ -16,6 +16,24 @@ EXPLANATION = (
     "no loop may contain both. action_tabulate must build the tabulation before it opens (truncates) the output file.")
 
 
+KNOWN_CTOR = ("potentials", "eam_potentials", "dipole_potentials", "quadrupole_potentials", "cutoff", "nr", "cutoff_rho", "nrho")
+
+
+def _required(ci):
+    """constructor parameters a scenario binds: the required ones and the known model / grid parameters; an option that has a
+    default keeps it (and so does every parameter after the first such option)"""
+    init = ci.lookup("__init__")
+    params = init.params()[1:]
+    ndef = len(init.node.args.defaults)
+    optional = set(params[len(params) - ndef:]) if ndef else set()
+    out = []
+    for p in params:
+        if p in optional and p not in KNOWN_CTOR:
+            break
+        out.append(p)
+    return out
+
+
 def registered_classes(P, I):
     out = {}
     mod = P.module("atsim.potentials.config._tabulation_factories")
@@ -81,8 +99,7 @@ def run(chk):
         def one(ci=ci, how=how):
             excel = "Excel" in ci.name
             fs = "Finnis" in ci.name or "_FS_" in ci.name
-            init = ci.lookup("__init__")
-            params = init.params()[1:]
+            params = _required(ci)
             I = W.make_interp(P, elem=W.EAM_ELEM)
             if excel:
                 excelmodel.install(I)
@@ -169,7 +186,7 @@ def _failing_model(I, P, ci, role):
             d = f("density", "rho_" + a)
         eams.append(I.instantiate(eam, [Const(a), Num(ep.const(1)), Num(ep.const(1)), f("embedding", "F_" + a), d], {}, None))
     args = []
-    for p in ci.lookup("__init__").params()[1:]:
+    for p in _required(ci):
         if p == "potentials":
             args.append(pots("pair", "phi"))
         elif p == "eam_potentials":
